@@ -32,7 +32,7 @@ def pollFuel : Pc → Nat
   | _ => 0
 
 /-- anywhere inside wait / tryWait / wait(timeout), the polling fallback included -/
-def inCall (p : Pc) : Bool := waiting p || polling p
+def inCall (p : Pc) : Bool := waiting p || polling p || (match p with | .twTry _ => true | _ => false)
 
 /-- one step from a state with a positive count: a thread inside wait / tryWait / wait(timeout) stays there or returns;
     it returns true unless an untimed wait is interrupted (EINTR, documented: "whether it was decremented") -/
